@@ -128,6 +128,13 @@ def thermalTrace (zbs zts : List Rat) (keys : List Key) : Thermal → List Strin
     | _ => ["bad-op"]
 
 def answer : List String → String
+  -- alias <heap> <cells> <factors>: changeNDensByFactor on components that may share composition cells
+  | ["alias", heap, cells, fs] =>
+    match parseRatList? heap, parseNatList? cells, parseRatList? fs with
+    | some heap, some cells, some fs =>
+      if cells.any (fun c => decide (heap.length ≤ c)) ∨ cells.length < fs.length then "bad-op"
+      else showList showRat (densitiesAfter heap cells fs)
+    | _, _, _ => "bad-op"
   -- thermal <fromInput T/F> <zbs> <zts> <keys [[ib,ic],..]> <temps> <ops>
   | ["thermal", fi, zbs, zts, keys, temps, ops] =>
     match parseBool? fi, parseRatList? zbs, parseRatList? zts, parseList? parseKey? keys, parseRatList? temps, splitTop ops with
